@@ -86,6 +86,10 @@ def expr(e):
             raise Untranslatable("string formatting with %")
         if isinstance(e.op, ast.Add) and (is_str(e.left) or is_str(e.right)):
             return "(.concat %s %s)" % (expr(e.left), expr(e.right))          # text + text
+        if isinstance(e.op, ast.Mult) and is_str(e.left) and not is_str(e.right):
+            return "(.strRepeat %s %s)" % (expr(e.left), expr(e.right))       # text * n
+        if isinstance(e.op, ast.Mult) and is_str(e.right) and not is_str(e.left):
+            return "(.strRepeat %s %s)" % (expr(e.right), expr(e.left))       # n * text
         op = {ast.Add: "add", ast.Sub: "sub", ast.Mult: "mul", ast.BitAnd: "band", ast.BitOr: "bor",
               ast.RShift: "shr", ast.LShift: "shl", ast.Mod: "mod", ast.FloorDiv: "floordiv"}.get(type(e.op))
         if not op:
@@ -163,8 +167,11 @@ def expr(e):
             and is_strconst(e.func.value) and len(e.args) == 1 and not e.keywords:
         m = re.fullmatch(r"\{0:0(\d+)b\}", e.func.value.value)
         if not m:
-            raise Untranslatable("format string %r" % e.func.value.value)
+            return format_call(e)
         return "(.fmtBin %d %s)" % (int(m.group(1)), expr(e.args[0]))
+    if isinstance(e, ast.Call) and isinstance(e.func, ast.Attribute) and e.func.attr == "format" \
+            and is_strconst(e.func.value):
+        return format_call(e)
     if isinstance(e, ast.Call) and isinstance(e.func, ast.Attribute) and e.func.attr == "startswith" \
             and len(e.args) == 1 and not e.keywords:
         return "(.startswith %s %s)" % (expr(e.func.value), expr(e.args[0]))
@@ -226,6 +233,51 @@ def expr(e):
     if isinstance(e, ast.Subscript) and isinstance(e.value, ast.Name) and isinstance(e.slice, (ast.Name, ast.Call)):
         return "(.subscr %s %s)" % (expr(e.value), expr(e.slice))              # d[key]
     raise Untranslatable(ast.dump(e)[:80])
+
+
+def format_call(e):
+    """`"…{name}…{0}…".format(a, name=b)` as the concatenation of its literal pieces and its (text or int) arguments;
+    only plain fields `{name}` / `{N}` and the escapes `{{` `}}`"""
+    fmt = e.func.value.value
+    kw = dict((k.arg, k.value) for k in e.keywords)
+    if None in kw:
+        raise Untranslatable("format(**…)")
+    pieces, lit, i, used = [], "", 0, set()
+    while i < len(fmt):
+        c = fmt[i]
+        if fmt.startswith("{{", i) or fmt.startswith("}}", i):
+            lit += c
+            i += 2
+        elif c == "{":
+            j = fmt.find("}", i)
+            field = fmt[i + 1:j] if j > 0 else None
+            if field is None or not re.fullmatch(r"[A-Za-z_]\w*|\d+", field):
+                raise Untranslatable("format field in %r" % fmt)
+            if field.isdigit():
+                if int(field) >= len(e.args):
+                    raise Untranslatable("format field {%s} without argument" % field)
+                arg = e.args[int(field)]
+            else:
+                if field not in kw:
+                    raise Untranslatable("format field {%s} without argument" % field)
+                arg = kw[field]
+            used.add(field)
+            if lit:
+                pieces.append("(.strc %s)" % codes(lit))
+                lit = ""
+            pieces.append("(.fmtArg %s)" % expr(arg))
+            i = j + 1
+        elif c == "}":
+            raise Untranslatable("single } in format string %r" % fmt)
+        else:
+            lit += c
+            i += 1
+    if lit or not pieces:
+        pieces.append("(.strc %s)" % codes(lit))
+    out = pieces[-1]
+    for q in reversed(pieces[:-1]):
+        out = "(.concat %s %s)" % (q, out)
+    return out
 
 
 def stmts(body, sink, tail=False):
@@ -893,6 +945,67 @@ def generate_das(repo):
     return "\n".join(parts)
 
 
+def generate_dds(repo):
+    """responses/dds.py: the text of every line the DDS printer yields (C07's `Dds.printT` / `printBase` / `shapeText`)"""
+    dds = parse_src(repo, "responses", "dds.py")
+    table = {"var.name": "var.name", "NUMPY_TO_DAP2_TYPEMAP[var.dtype.char]": "@type", "var.dims": "var.dims",
+             "var.shape": "var.shape", "isinstance(var.data, DummyData)": "@nodata",
+             "''.join(map('[{0[0]} = {0[1]}]'.format, zip(var.dims, shape)))": "@dims_text",
+             "''.join(('[{0}]'.format(len) for len in shape))": "@anon_text"}
+    strs = {"INDENT", "var.name"}
+
+    def indent():
+        found = [n for n in dds.body if isinstance(n, ast.Assign) and len(n.targets) == 1
+                 and isinstance(n.targets[0], ast.Name) and n.targets[0].id == "INDENT"]
+        if len(found) != 1:
+            raise Untranslatable("expected exactly one module-level `INDENT = …`")
+        return stmts(found, None)
+
+    def lines(name):
+        def go():
+            fn = find_function(dds, name)
+            ys = [x for x in body_of(fn) if isinstance(x, ast.Expr) and isinstance(x.value, ast.Yield)]
+            inner = [n for x in body_of(fn) if not (isinstance(x, ast.Expr) and isinstance(x.value, ast.Yield))
+                     for n in ast.walk(x) if isinstance(n, ast.Yield) and not isinstance(n.value, ast.Name)]
+            if not ys or inner:
+                raise Untranslatable("expected the lines of %s as top-level `yield <text>` statements" % name)
+            with abstracting(table, str_vars=strs):
+                parts = ["(.assign %s %s)" % (lstr("@line%d" % i), expr(y.value.value)) for i, y in enumerate(ys)]
+            out = parts[-1]
+            for q in reversed(parts[:-1]):
+                out = "(.seq %s %s)" % (q, out)
+            return out
+        return go
+
+    def base_shape():
+        fn = find_function(dds, "_basetype")
+        body = [x for x in body_of(fn) if not (isinstance(x, ast.Expr) and isinstance(x.value, ast.Yield))]
+        if len(body) != len(body_of(fn)) - 1:
+            raise Untranslatable("expected exactly one yield in _basetype")
+        with abstracting(table, str_vars=strs):
+            return stmts(body, None)
+
+    parts = [HEADER,
+             block("src_dds_indent", "responses/dds.py: the module constant `INDENT = …`", indent),
+             block("src_dds_dataset_lines", "responses/dds.py dds(DatasetType): the texts of its top-level `yield`s, in order "
+                   "(`@line0`, `@line1`); inputs `level`, `INDENT`, `var.name`", lines("_")),
+             block("src_dds_sequence_lines", "responses/dds.py _sequencetype: the texts of its top-level `yield`s",
+                   lines("_sequencetype")),
+             block("src_dds_structure_lines", "responses/dds.py _structuretype: the texts of its top-level `yield`s",
+                   lines("_structuretype")),
+             block("src_dds_grid_lines", "responses/dds.py _gridtype: the texts of its top-level `yield`s "
+                   "(`Grid {`, `Array:`, `Maps:`, `} name;`)", lines("_gridtype")),
+             block("src_dds_base_line", "responses/dds.py _basetype: the text of its `yield`; inputs `level`, `INDENT`, "
+                   "`@type` for `NUMPY_TO_DAP2_TYPEMAP[var.dtype.char]`, `var.name`, `shape` (the text computed before)",
+                   lines("_basetype")),
+             block("src_dds_base_shape", "responses/dds.py _basetype: everything before the `yield` (the record axes dropped, "
+                   "the three forms of the shape text); inputs `var.shape`, `@nodata` for `isinstance(var.data, DummyData)`, "
+                   "`sequence`, `var.dims`, `var.name`, `@dims_text` / `@anon_text` for the two joins over generators",
+                   base_shape),
+             "end Pydap.Gen\n"]
+    return "\n".join(parts)
+
+
 def generate_hlib(repo):
     """handlers/lib.py `check_hyperslab` (C15/C02's `Handler.validSl` / the guard of `Handler.sliceBase`)"""
     hlib = parse_src(repo, "handlers", "lib.py")
@@ -908,7 +1021,7 @@ def generate_hlib(repo):
     return "\n".join(parts)
 
 
-GENERATORS = [("DasSrc.lean", generate_das), ("HlibSrc.lean", generate_hlib), ("ProjSrc.lean", generate_proj), ("SsfSrc.lean", generate_ssf), ("DmrSrc.lean", generate_dmr), ("LibSrc.lean", generate_lib), ("SliceSrc.lean", generate), ("DapSrc.lean", generate_dap), ("DodsSrc.lean", generate_dods),
+GENERATORS = [("DdsSrc.lean", generate_dds), ("DasSrc.lean", generate_das), ("HlibSrc.lean", generate_hlib), ("ProjSrc.lean", generate_proj), ("SsfSrc.lean", generate_ssf), ("DmrSrc.lean", generate_dmr), ("LibSrc.lean", generate_lib), ("SliceSrc.lean", generate), ("DapSrc.lean", generate_dap), ("DodsSrc.lean", generate_dods),
               ("AppSrc.lean", generate_app), ("CeSrc.lean", generate_ce)]
 
 
